@@ -605,13 +605,13 @@ class VGen(Gen):
         paths = list(all_paths(x))
         path = self.rng.choice(paths)
         tgt = get_at(x, path)
-        new = self.mutate(tgt)
+        new = self.mutate(tgt, root=not path)
         if not path:
             return new
         set_at(x, path, new)
         return x
 
-    def mutate(self, t: dict) -> dict:
+    def mutate(self, t: dict, root: bool = True) -> dict:
         r = self.rng
         tt = t["t"]
         c = r.random()
@@ -644,8 +644,12 @@ class VGen(Gen):
                 return {"t": "sub", "cls": self.new_class(3, base="dict"), "v": t}
             t["oid"] = self.oid()
             return t
-        if tt == "inst" and c < 0.2 and t["cls"]["kind"] == 1 and t["names"]:
-            # a dataclass instance one of whose declared fields holds no value
+        if tt == "inst" and c < 0.2 and t["cls"]["kind"] == 1 and t["names"] and root:
+            # a dataclass instance one of whose declared fields holds no value.  Only as the value a validator is
+            # given directly, never inside a container: the generated `__eq__` / `__hash__` of such an instance raise
+            # AttributeError, so wherever the library compares or hashes the caller's items (UniqueItems, sets, dict
+            # keys, Choices) the exception is the object's own - objects with a raising `__eq__` / `__hash__` are outside
+            # the model (DESIGN section 9)
             # (only a field without a default: a defaulted field's name is also a class attribute, so deleting the
             # instance attribute leaves `getattr` answering while `__dict__` has no entry)
             nodefault = {f[0] for f in self.class_fields(t["cls"]) if f[1] is None}
